@@ -42,6 +42,12 @@ def impl(line):
                 k, p = _decode_length(mk_buf(T.next())); return f'{k} {p}'
         if op == 'compress':
             p = mk_packet(p_packet(T)); r = mk_rule(p_rule(T)); return show_buf(compress(p, r))
+        if op == 'compress2':
+            # one parsed packet compressed with a first rule, then the SAME descriptor object with a second rule: what the
+            # second call returns must be what it returns on a fresh descriptor (the model line is `compress packet ruleB`)
+            p = mk_packet(p_packet(T)); ra = mk_rule(p_rule(T)); rb = mk_rule(p_rule(T))
+            compress(p, ra)
+            return show_buf(compress(p, rb))
         if op == 'decompress':
             s = mk_buf(T.next()); r = mk_rule(p_rule(T)); return show_buf(decompress(s, r))
         if op == 'roundtrip':
@@ -139,6 +145,10 @@ def oracle(line, out):
         if 'aligned' in meta:
             exp = 'R:' + spec.ref_compress(p, r)
             if out != exp: v.append(('C02', f'SCHC packet {out} != reference {exp}'))
+    elif op == 'compress2':
+        p = p_packet(T); ra = p_rule(T); rb = p_rule(T)
+        exp = 'R:' + spec.ref_compress(p, rb)
+        if out != exp: v.append(('C02', f'second compress of the same parsed packet gives {out} != reference {exp}')); v.append(('C16', 'compress changed its packet descriptor'))
     elif op == 'decompress':
         s = T.next(); r = p_rule(T)
         if 'conforming' in meta:
@@ -224,7 +234,17 @@ def oracle(line, out):
 
 def evaluate(line):
     out = impl(line)
-    return out, oracle(line, out)
+    v = oracle(line, out)
+    if line.startswith('schc '):
+        # the same operation with every rule first passed through its own JSON serialisation: a reloaded rule carries its
+        # direction / operator / action as plain strings, and every property quantifies over such rules too
+        from . import codec
+        codec.RELOAD = True
+        try: out2 = impl(line)
+        finally: codec.RELOAD = False
+        if out2 != out:
+            v = v + [(p, 'with the rules reloaded from their own JSON: ' + m) for (p, m) in oracle(line, out2)]
+    return out, v
 
 def nontrivial(line):
     return len(line) > 40
@@ -236,7 +256,12 @@ def branch(line, out):
     return b
 
 def model_line(line):
-    return split_meta(line)[0]
+    """what the (pure) model is asked for this line"""
+    body = split_meta(line)[0]
+    if body.startswith('schc compress2 '):
+        T = Toks(body.split()[2:]); p = p_packet(T); ra = p_rule(T); rb = p_rule(T)
+        return f'schc compress {e_packet(p)} {e_rule(rb)}'
+    return body
 
 # ------------------------------------------------------------------------------------------------ generators
 
@@ -298,6 +323,18 @@ def gen(props, tier, rng):
                               {'id': 'z', 'len': len(after), 'pos': 0, 'dir': 'B', 'mo': 'ig', 'cda': 'vs', 'tv': ('b', 'L:')}]
                         rule = {'id': abuf(rulegen.rbits(rng, rng.choice([1, 3, 8]))), 'nature': 'c', 'fields': rf}
                         yield f'schc roundtrip {e_packet(pkt)} {e_rule(rule)} # c01 c17'
+        # the variable-length residue as the LAST bits of the SCHC packet (nothing sent after it, empty or tiny payload), every
+        # small size: the size announcement must be read from exactly the bits that are there
+        for n in list(range(0, 17)) + [254, 255, 256]:
+            for kind in ('vs', 'lsb'):
+                for paylen in (0, 0, 1, 3):
+                    patlen = rng.choice([0, 2, 8]) if kind == 'lsb' else 0
+                    val = rulegen.rbits(rng, n + patlen); z = rulegen.rbits(rng, rng.choice([3, 8]))
+                    pkt = rulegen.packet_from_fields([('v', 0, val), ('z', 0, z)], rulegen.rbits(rng, paylen))
+                    rf = [{'id': 'v', 'len': 0, 'pos': 0, 'dir': 'B', 'mo': 'ig' if kind == 'vs' else 'msb', 'cda': kind, 'tv': ('b', 'L:' + val[:patlen])},
+                          {'id': 'z', 'len': len(z), 'pos': 0, 'dir': 'B', 'mo': 'eq', 'cda': 'ns', 'tv': ('b', 'L:' + z)}]
+                    rule = {'id': abuf(rulegen.rbits(rng, rng.choice([1, 3, 8]))), 'nature': 'c', 'fields': rf}
+                    yield f'schc roundtrip {e_packet(pkt)} {e_rule(rule)} # c01 c17'
     # ---------------------------------------------------------------- packets and rules shared by C01/C02/C03/C09/C20
     need_pk = props & {'C01', 'C02', 'C03', 'C09', 'C20'}
     if need_pk:
@@ -309,6 +346,14 @@ def gen(props, tier, rng):
                 if 'C02' in props:
                     r = rulegen.derive_rule(rng, pkt, lossless=rng.random() < 0.5, allow_compute=False)
                     yield f'schc compress {e_packet(pkt)} {e_rule(r)} # aligned'
+                    if i % 3 == 0:
+                        # first everything value-sent behind rule IDs of 8 / 16 / 3 bits (fields land on and off byte boundaries),
+                        # then a rule that takes least-significant bits of the same descriptor's fields
+                        ra = {'id': abuf(rulegen.rbits(rng, rng.choice([8, 16, 3]))), 'nature': 'c',
+                              'fields': [rulegen.derive_rfield(rng, f, pairing=('ig', 'vs'), variable=False, allow_compute=False) for f in pkt['fields']]}
+                        rb = {'id': abuf(rulegen.rbits(rng, rng.choice([1, 4, 8]))), 'nature': 'c',
+                              'fields': [rulegen.derive_rfield(rng, f, pairing=('msb', 'lsb') if len(f['value']) > 3 else ('ig', 'vs'), variable=False, allow_compute=False) for f in pkt['fields']]}
+                        yield f'schc compress2 {e_packet(pkt)} {e_rule(ra)} {e_rule(rb)}'
                 r = rulegen.derive_rule(rng, pkt, allow_compute=False, mixed_index=rng.random() < 0.5)
                 # widths at the size-class boundaries for variable fields
                 if 'C01' in props:
